@@ -173,6 +173,71 @@ def antisymProjectScaled (mats : Nat → Nat → Nat → α) (dimA dimB : Nat) (
   (antisymIndex dimA r).flatMap fun rows =>
     (antisymIndex dimB r).map fun cols => polMinorScaled mats INDEX tabI tabJ rows cols
 
+/-- `x.reshape(-1)[j]` of the `k`-th generator (`dimB` columns) -/
+def flatEntry (mats : Nat → Nat → Nat → α) (dimB k j : Nat) : α := mats k (j / dimB) (j % dimB)
+
+/-- One entry of `project_to_symmetric_basis([x.reshape(-1) for x in np_list], INDEX)` (`_hierarchy.py:168-186`) for the symmetric
+multi-index `K` (a column of `get_symmetric_basis_index(dimA*dimB, INDEX)[2]`), **divided by `pvalue[K]·|pindex|/s!`**, `s = len(INDEX)`:
+the implementation sums `∏_m np_list[INDEX[m]][K[p[m]]]` over the rows `p` of `permutation_with_antisymmetric_factor(INDEX)[0]`
+(one representative per arrangement) and multiplies by `pvalue[K] = sqrt(s!/∏ count(K)!)/|pindex|`; here every row is weighted by the
+number `s!/|pindex| = ∏ multiplicity!` of permutations it stands for, which is the absolute value of the row's `pvalue` in the
+antisymmetric table.  `N = len(np_list)`: for `N = 1` the implementation returns `np_list[0]` itself (`:174-175`). -/
+def symPartEntry (mats : Nat → Nat → Nat → α) (dimB N : Nat) (INDEX K : List Nat) : α :=
+  if N = 1 then flatEntry mats dimB 0 (K.getD 0 0)
+  else listSum <| (antisymFactorTable INDEX).map fun pv =>
+    nsmulN pv.2.natAbs <| listProd <| (List.range INDEX.length).map fun m =>
+      flatEntry mats dimB (INDEX.getD m 0) (K.getD (pv.1.getD m 0) 0)
+
+/-- the index set of the symmetric factor: `[[]]` at level 1 (`np.array([1])`), the positions of `np_list[0]` when `N = 1`,
+else `combinations_with_replacement(range(dimA*dimB), s)` -/
+def symPartKeys (N dim s : Nat) : List (List Nat) :=
+  if s = 0 then [[]] else if N = 1 then (List.range dim).map fun j => [j] else symIndex dim s
+
+/-- One entry of the vector that `has_rank_hierarchical_method` builds for the sorted multi-index `INDEX` (length `r+k`, minors of
+size `q = r+1`) (`_hierarchy.py:280-297`), up to the positive factors `factor/q!` (uniform) and `pvalue[K]·|pindex|/s!` (depends on `K` only):
+`Σ_{sub ⊂ positions, |sub| = q} antisym(INDEX|sub)[rows, cols] · sym(INDEX|rest)[K]`
+(`opt_einsum.contract(TAlpha,[0,1,2], TBeta,[0,3,2], [0,1,3])` sums over the sub-tuples). -/
+def hierVecEntry (mats : Nat → Nat → Nat → α) (dimB N q : Nat) (INDEX rows cols K : List Nat) : α :=
+  let n := INDEX.length
+  listSum <| (combos (List.range n) q).map fun sub =>
+    let rest := (List.range n).filter fun x => !sub.contains x
+    let idxA := sub.map fun x => INDEX.getD x 0
+    let idxS := rest.map fun x => INDEX.getD x 0
+    polMinorScaled mats idxA (antisymFactorTable idxA) (antisymFactorTableInt q) rows cols
+      * (if rest.isEmpty then 1 else symPartEntry mats dimB N idxS K)
+
+/-- the whole (scaled) vector for one multi-index, flattened as the implementation does: `(I, J)` row-major, then `K` -/
+def hierVecScaled (mats : Nat → Nat → Nat → α) (dimA dimB N q : Nat) (INDEX : List Nat) : List α :=
+  (antisymIndex dimA q).flatMap fun rows => (antisymIndex dimB q).flatMap fun cols =>
+    (symPartKeys N (dimA * dimB) (INDEX.length - q)).map fun K => hierVecEntry mats dimB N q INDEX rows cols K
+
+/-! ### tripartite test (`is_ABC_completely_entangled_subspace`, `_hierarchy.py:313-351`) -/
+
+/-- `x.reshape(dimA, dimB*dimC)` of a `(dimA,dimB,dimC)` tensor -/
+def matA_BC (dimC : Nat) (T : Nat → Nat → Nat → α) : Nat → Nat → α := fun a bc => T a (bc / dimC) (bc % dimC)
+
+/-- `x.reshape(dimA*dimB, dimC)` -/
+def matAB_C (dimB : Nat) (T : Nat → Nat → Nat → α) : Nat → Nat → α := fun ab c => T (ab / dimB) (ab % dimB) c
+
+variable [Sub α]
+
+/-- `4·contract(X, Y, P_x, P_y)[x, y, x', y']` with `P_n = hf1(n)` the projector on the antisymmetric part of `ℂⁿ⊗ℂⁿ`
+(`P[i,j,k,l] = (δ_ik δ_jl - δ_il δ_jk)/2`): the polarised `2×2` minor of `(X, Y)` on rows `x,x'` and columns `y,y'` -/
+def antisym2 (X Y : Nat → Nat → α) (x y x' y' : Nat) : α :=
+  X x y * Y x' y' - X x' y * Y x y' - X x y' * Y x' y + X x' y' * Y x y
+
+/-- `4·ABC2[a,b,c,a',b',c']` for the pair of tensors `(T1, T2)` (`:332-337`): the `A|BC` cut plus the `AB|C` cut; both flattened
+arrays have the index order `(a,b,c,a',b',c')`, so they are added entry by entry. -/
+def abcEntry (dimB dimC : Nat) (T1 T2 : Nat → Nat → Nat → α) (a b c a' b' c' : Nat) : α :=
+  antisym2 (matA_BC dimC T1) (matA_BC dimC T2) a (b * dimC + c) a' (b' * dimC + c')
+    + antisym2 (matAB_C dimB T1) (matAB_C dimB T2) (a * dimB + b) c (a' * dimB + b') c'
+
+/-- the (×4) level-1 vector of the tripartite test for one pair of generators, flattened row-major over `(a,b,c,a',b',c')` -/
+def abcVecScaled (dimA dimB dimC : Nat) (T1 T2 : Nat → Nat → Nat → α) : List α :=
+  (List.range dimA).flatMap fun a => (List.range dimB).flatMap fun b => (List.range dimC).flatMap fun c =>
+    (List.range dimA).flatMap fun a' => (List.range dimB).flatMap fun b' => (List.range dimC).map fun c' =>
+      abcEntry dimB dimC T1 T2 a b c a' b' c'
+
 /-- the multi-indices of the vector family of `has_rank_hierarchical_method(…, rank, hierarchy_k)`:
 `combinations_with_replacement(range(N), r + k)`, `r = rank-1` (`_hierarchy.py:280`). -/
 def hierarchyIndices (N rank k : Nat) : List (List Nat) := combosRep (List.range N) (rank - 1 + k)
